@@ -335,7 +335,12 @@ def render_fn(rng, terms, const):
         # quadratic message with an empty quadratic part
         return ["quad", [[], [], [], [lin(terms, const)[1]]]]
     mons = [[[i], num(c)] for i, c in terms]
-    if const != 0.0 or rng.random() < 0.5:
+    if rng.random() < 0.4:
+        # the constant spread over several empty-id monomials (legal: repeated monomials of a Polynomial add up)
+        a = float(rng.randint(-6, 6)) / 2
+        parts = [a, const - a] if rng.random() < 0.6 else [a, -a, const]
+        mons += [[[], num(p)] for p in parts]
+    elif const != 0.0 or rng.random() < 0.5:
         mons.append([[], num(const)])
     rng.shuffle(mons)
     return ["poly", mons]
